@@ -31,6 +31,14 @@ type snapshot struct {
 // outpoint belongs to a transaction processOrphans walked (the operation's own
 // transactions or anything that entered the pool during the operation).
 func ndAfter(before, after snapshot, opTxs []int) bool {
+	return len(prioReadback(before, after, opTxs)) > 0
+}
+
+// prioReadback lists the contested orphans (see above) that left the orphan pool
+// during the operation: first those that are now pooled, then those that were
+// removed.  Tried in this order (then everything else) the model's processOrphans
+// reproduces what the implementation's map iteration did.
+func prioReadback(before, after snapshot, opTxs []int) []int {
 	walked := map[int]bool{}
 	for _, id := range opTxs {
 		walked[id] = true
@@ -40,6 +48,7 @@ func ndAfter(before, after snapshot, opTxs []int) bool {
 			walked[id] = true
 		}
 	}
+	left := map[int]bool{}
 	for k, ids := range before.byPrev {
 		if len(ids) < 2 {
 			continue
@@ -50,11 +59,56 @@ func ndAfter(before, after snapshot, opTxs []int) bool {
 		}
 		for _, id := range ids {
 			if !after.orphans[id] {
-				return true
+				left[id] = true
 			}
 		}
 	}
-	return false
+	var in, out []int
+	for id := range left {
+		if after.pool[id] {
+			in = append(in, id)
+		} else {
+			out = append(out, id)
+		}
+	}
+	sort.Ints(in)
+	sort.Ints(out)
+	return append(in, out...)
+}
+
+// resolveND handles an operation after which contested orphans left the orphan
+// pool.  prioField is the op's choice list on the line.  Returns "" to go on
+// comparing, or the token that ends the line.
+func (r *runner) resolveND(before, after snapshot, opTxs []int, i, field int) string {
+	rb := prioReadback(before, after, opTxs)
+	if len(rb) == 0 {
+		return ""
+	}
+	f := strings.Split(r.ops[i], ":")
+	// two or more contested orphans were removed without being accepted: which of them was tried
+	// (and failed) first cannot be read back, so no choice is recorded and both sides stop here
+	removed := 0
+	for _, id := range rb {
+		if !after.pool[id] {
+			removed++
+		}
+	}
+	if r.record {
+		if removed >= 2 {
+			return "nd"
+		}
+		f[field] = joinInts(rb)
+		r.ops[i] = strings.Join(f, ":")
+		return ""
+	}
+	if f[field] == "-" {
+		return "nd" // no choice recorded: both sides stop here
+	}
+	if f[field] == joinInts(rb) {
+		return ""
+	}
+	r.steerFailed = true // the map order differed from the recorded one: run again
+	return "nd-unreachable"
 }
 
 func (r *runner) idOf(h chainhash.Hash) int {
@@ -686,9 +740,11 @@ func (r *runner) run() string {
 						btxs = bo.txs
 					}
 				}
-				if want == 'C' && ndAfter(r.last, ev.sn, btxs) {
-					outs = append(outs, "nd")
-					return strings.Join(outs, "|")
+				if want == 'C' {
+					if tok := r.resolveND(r.last, ev.sn, btxs, i+1+j, 6); tok != "" {
+						outs = append(outs, tok)
+						return strings.Join(outs, "|")
+					}
 				}
 				if want == 'U' {
 					r.markStale() // everything pooled before this disconnect
@@ -708,9 +764,15 @@ func (r *runner) run() string {
 			return "bad-op"
 		}
 		line := r.after(res)
-		if runsOrphans && ndAfter(before, r.last, opTxs) {
-			outs = append(outs, "nd")
-			break
+		if runsOrphans {
+			field := 6
+			if f[0] == "O" {
+				field = 2
+			}
+			if tok := r.resolveND(before, r.last, opTxs, i, field); tok != "" {
+				outs = append(outs, tok)
+				break
+			}
 		}
 		outs = append(outs, line)
 	}
